@@ -15,3 +15,8 @@ Proof.
   intros Hs. unfold gen_single_threshold, metric_beats, beats. destruct (decreasing m); cbn [negb orb]; [reflexivity|].
   apply Qle_bool_iff. unfold Qle. cbn. lia.
 Qed.
+
+(* the labels the constructed class groups answer for: those of the groups kept in the dictionary (Model/GroupCtor.v) *)
+From Pan Require Import Model.Config Model.GroupCtor.
+Lemma geneq_ctor_labels d : gen_ctor_labels (map (fun ng => (fst ng, Config.g_labels (snd ng))) d) = dict_labels d.
+Proof. unfold gen_ctor_labels, dict_labels. induction d as [|ng t IH]; cbn [map flat_map snd]; [reflexivity|]. rewrite IH. reflexivity. Qed.
